@@ -17,6 +17,9 @@ Feature flags (string of letters) for `random_tree`:
     'Q'  string literals with generated bodies: the *other* kind of quote (`"it's }"`, `'say "{'`), escaped quotes
          and backslashes, `{ } ; :`, parentheses and comment markers inside the string -- as value tokens (bare, in
          url(..) / fn(..) / maps) and in selectors (attribute selectors, :not([..]), parenthesised at-rule arguments)
+    'N'  nested parenthesised expressions (generated, depth 1..4): SCSS maps of maps, function calls with keyword
+         arguments and parenthesised arguments, arithmetic groups -- holding colons, commas, blanks and new-lines only
+         (never `;`, `{`, `}`, never a string) -- as value tokens and in at-rule preludes / functional pseudo-classes
 """
 import random
 
@@ -104,6 +107,122 @@ def _fill(rng, pattern):
 
 
 # ------------------------------------------------------------------------------------------------
+# nested parenthesised expressions (feature 'N')
+#
+# An expression is a JSON-able tree:   group = ['g', fname, [entry, ...]]    entry = [key, val]
+#   fname : '' (a bare group `( .. )`, e.g. an SCSS map) or a function name (`fn( .. )`)
+#   key   : '' (positional entry) or a key text (`key: val`)
+#   val   : an atom text or a group
+# nest_text() writes it with a given colon / comma spelling.  Only letters, digits, `$ # % . - + * _`, blanks,
+# new-lines, `:`, `,`, `(`, `)` occur: nothing that the recorded known findings KF-C10-P / KF-C10-L depend on.
+
+NEST_ATOMS = ['0', '1', '10px', '1.5em', '50%', '$x', 'sm', 'md', 'red', '#fff', '-1px', 'a-b', '1px solid', '2 * 4px',
+              '100% - 2px', '$a + 1']
+NEST_KEYS = ['a', 'sm', 'min', 'k', '$from', 'min-width', 'w2', '$a-b', 'x_y']
+NEST_FUNCS = ['fn', 'map-get', 'calc', 'rgba', 'm.get', 'min', 'if']
+NEST_COLONS = [': ', ': ', ':', ' : ', ':  ']
+NEST_COMMAS = [', ', ', ', ',', ' , ', ',\n    ']
+# wrappers of a nested expression E: value tokens ...
+NESTED_TOKENS = ['%s', '%s', '%s', 'fn(%s)', 'map-merge($m, %s)', 'f(1, %s, k: 2)', 'map-get(%s, sm)', 'g(%s, %s)',
+                 'calc(1px + %s)']
+# ... and rule preludes (a selector never starts with a colon here)
+NESTED_SELECTORS = ['@include mq(%s)', '@include m($a: %s, $b: 1)', '@media %s and (c: d)', '@media screen and %s',
+                    '@supports (a: b) and ((c: d) or %s)', '@mixin m($map: %s, $n: 1)', '@each $k, $v in %s',
+                    'a:not(:is(.b):hover)', 'li:nth-child(2n+1 of :not(.x):focus) a', 'a:is(b:not(c:hover), d:focus)',
+                    '@if map-get(%s, k) == (1)', '&:not(%s)', '@function f($p: %s)', 'a:where(:not(b), c:d) e:f']
+
+
+def nest_tree(rng, depth, named=None):
+    """a random group with nesting depth <= depth (>= 1)"""
+    if named is None:
+        named = rng.random() < 0.3
+    entries = []
+    for _ in range(rng.choice([1, 2, 2, 3, 3, 4] if depth < 2 else [1, 2, 2, 3])):
+        key = rng.choice(NEST_KEYS) if rng.random() < 0.6 else ''
+        if depth > 1 and rng.random() < 0.5:
+            val = nest_tree(rng, depth - 1)
+        else:
+            val = rng.choice(NEST_ATOMS)
+        entries.append([key, val])
+    return ['g', rng.choice(NEST_FUNCS) if named else '', entries]
+
+
+def nest_text(tree, colon=':', comma=','):
+    out = []
+    for key, val in tree[2]:
+        v = val if isinstance(val, str) else nest_text(val, colon, comma)
+        out.append(key + colon + v if key else v)
+    return tree[1] + '(' + comma.join(out) + ')'
+
+
+def nest_depth(tree):
+    return 1 + max([nest_depth(v) for _k, v in tree[2] if not isinstance(v, str)] or [0])
+
+
+NEST_MAXLEN = 70
+
+
+def nested(rng):
+    """text of one random nested expression (depth 1..4, at most NEST_MAXLEN characters: every position of the sheet
+    is checked and each check scans the sheet; one level of parentheses is the control group)"""
+    while True:
+        tree = nest_tree(rng, rng.choice([1, 2, 2, 2, 3, 3, 3, 4]))
+        text = nest_text(tree, rng.choice(NEST_COLONS), rng.choice(NEST_COMMAS))
+        if len(text) <= NEST_MAXLEN:
+            return text
+
+
+def _nfill(rng, pattern):
+    return pattern % tuple(nested(rng) for _ in range(pattern.count('%s')))
+
+
+def nest_family(depth, width, calls=True):
+    """every group tree of nesting depth <= depth with 1..width entries per group over: key `k` or none; value atom
+    `1`, a bare sub-group or (calls) a sub-group named `f`.  The outermost group is bare."""
+    def groups(d, name):
+        vals = ['1']
+        if d > 1:
+            vals = vals + list(groups(d - 1, ''))
+            if calls:
+                vals = vals + list(groups(d - 1, 'f'))
+        entries = [[k, v] for v in vals for k in ('k', '')]
+        level = [[]]
+        for _ in range(width):
+            level = [es + [e] for es in level for e in entries]
+            for es in level:
+                yield ['g', name, es]
+    return groups(depth, '')
+
+
+# where the nested expression E is put: place -> (selector of the first rule, name of its first declaration, value tokens
+# of that declaration) in `<sel>{<name>:<value>;c:d;e{f:g;}}h{i:j;}`; None: a layout of its own (see nest_sheet_tree)
+NEST_PLACES = {
+    'first': ('a', '$m', ['%s']),                       # a{$m:E;c:d;e{f:g;}}h{i:j;}
+    'prop': ('a', 'b', ['%s']),                         # ordinary property name
+    'custom': ('a', '--m', ['%s']),                     # custom property
+    'call': ('a', 'b', ['x', 'fn(%s)', 'y']),           # E is an argument, further tokens around
+    'top': None,                                        # a{c:d;}$m:E;h{i:j;}   (declaration between two top-level rules)
+    'inner': None,                                      # a{c:d;e{$m:E;f:g;}}h{i:j;}   (second level, after a declaration)
+    'atrule': ('@include m(%s)', 'b', ['c']),           # E in a rule prelude
+    'pseudo': ('a:not(%s) u', 'b', ['c']),
+}
+
+
+def nest_sheet_tree(text, place):
+    """the fixed stylesheet of the systematic nested-parentheses family with the expression `text` at `place`"""
+    cd = ['decl', 'c', ['d'], []]
+    e = ['rule', 'e', [['decl', 'f', ['g'], []]]]
+    h = ['rule', 'h', [['decl', 'i', ['j'], []]]]
+    if place == 'top':
+        return [['rule', 'a', [cd]], ['decl', '$m', [text], []], h]
+    if place == 'inner':
+        return [['rule', 'a', [cd, ['rule', 'e', [['decl', '$m', [text], []], ['decl', 'f', ['g'], []]]]]], h]
+    sel, name, toks = NEST_PLACES[place]
+    toks = [t.replace('%s', text) for t in toks]
+    return [['rule', sel.replace('%s', text), [['decl', name, toks, [' '] * (len(toks) - 1)], cd, e]], h]
+
+
+# ------------------------------------------------------------------------------------------------
 # random trees
 
 def _value(rng, feats):
@@ -116,6 +235,10 @@ def _value(rng, feats):
         for j in range(n):
             if rng.random() < 0.5:
                 toks[j] = _fill(rng, rng.choice(QUOTED_TOKENS))
+    if 'N' in feats:
+        for j in range(n):
+            if rng.random() < 0.5:
+                toks[j] = _nfill(rng, rng.choice(NESTED_TOKENS))
     seps = []
     for _ in range(n - 1):
         if 'V' not in feats and rng.random() < 0.12:
@@ -133,6 +256,8 @@ def _selector(rng, feats, depth):
         r = rng.random()
         if 'Q' in feats and r < 0.45:
             return _fill(rng, rng.choice(QUOTED_SELECTORS))
+        if 'N' in feats and r < 0.45:
+            return _nfill(rng, rng.choice(NESTED_SELECTORS))
         if 'L' in feats and r < 0.45:
             return rng.choice(LEAD_COLON)
         if 'P' in feats and r < 0.45:
